@@ -232,6 +232,22 @@ async function execProgram(req) {
         let v; try { v = ctx.__ser(ns[k]); } catch (e) { v = 'tdz'; }
         res.lexicals.push('export ' + k + '=' + v);
       }
+      // exported functions are the module's interface: call each once so that what happens inside them is observed
+      for (const k of Object.keys(ns).sort()) {
+        let f; try { f = ns[k]; } catch (e) { continue; }
+        if (typeof f !== 'function') continue;
+        try {
+          emit('export-call ' + k);
+          const r = f('#A1', '#A2', '#A3');
+          emit('export-return ' + k + ' ' + ctx.__ser(r));
+        } catch (e) {
+          let isBudget = false;
+          try { isBudget = ctx.__isBudget(e); } catch (_) { }
+          if (isBudget) { res.inconclusive = 'event budget'; break; }
+          let s2; try { s2 = ctx.__ser(e); } catch (_) { s2 = 'unserializable'; }
+          emit('export-throw ' + k + ' ' + s2);
+        }
+      }
     } else {
       unit.runInContext(ctx, { timeout });
     }
@@ -425,7 +441,10 @@ function analyze(req) {
   for (const s of scopes) { bindings += s.decl.size; maxScopeBindings = Math.max(maxScopeBindings, s.decl.size); let d = 0; for (let p = s; p; p = p.parent) d++; maxDepth = Math.max(maxDepth, d); }
   const imports = {};
   for (const st of ast.body) if (st.type === 'ImportDeclaration') { const l = imports[st.source.value] = imports[st.source.value] || []; for (const sp of st.specifiers) { const n = sp.type === 'ImportDefaultSpecifier' ? 'default' : sp.type === 'ImportNamespaceSpecifier' ? null : (sp.imported.name || sp.imported.value); if (n && l.indexOf(n) < 0) l.push(n); } } else if ((st.type === 'ExportNamedDeclaration' || st.type === 'ExportAllDeclaration') && st.source) { const l = imports[st.source.value] = imports[st.source.value] || []; if (st.specifiers) for (const sp of st.specifiers) { const n = sp.local.name || sp.local.value; if (l.indexOf(n) < 0) l.push(n); } }
+  let defaultLocal = '';
+  for (const st of ast.body) if (st.type === 'ExportDefaultDeclaration' && st.declaration && st.declaration.id && /Declaration$/.test(st.declaration.type)) defaultLocal = st.declaration.id.name;
   return {
+    defaultLocal,
     free: Array.from(free.keys()).sort(), freeCounts: Object.fromEntries(free), topLexical: topLex.sort(), topVar: topVar.sort(),
     props: Array.from(new Set(props)).sort(), labels: Array.from(new Set(labels)).sort(), imexp: imexp.sort(), idents: Array.from(idents).sort(),
     withIdents: Array.from(withIdents).sort(), scopes: scopes.length, bindings, maxScopeBindings, maxDepth, imports,
